@@ -36,6 +36,7 @@ def populate(W, base, uid, vol, tag):
         W.file('%s/files/%s' % (td, n), 'trashed %s %s\n' % (n, tag))
         W.file('%s/info/%s.trashinfo' % (td, n), '[Trash Info]\nPath=w/%s-%s\nDeletionDate=2020-01-0%dT00:00:00\n' % (
             n, tag, 1 + (n == 'two')))
+    W.file('%s/files/stray' % td, 'orphan payload %s\n' % tag)
     return td
 
 
